@@ -634,6 +634,9 @@ package server
 //@ func (*mrtWriter).dumpTable
 //@   claims step
 //@   loop 2 step len(entries) + len(entriesAddPath) == header(len(entries)) + header(len(entriesAddPath)) + 1
+// ... and both records are written: a destination that has plain entries still gets its ADD-PATH record (the call that
+// writes it can be reached with a non-empty plain list - a `reachable` clause: the query must be satisfiable)
+//@   at-call ^appendTableDumpMsg(paths[0], entriesAddPath, true) reachable len(entries) > 0
 
 // from C16 "every route gets the verdict ...": the validation of a listing runs over the table the listing produced -
 // when the table could not be produced (a filter the table cannot evaluate) there is nothing to validate and the error
